@@ -14,7 +14,7 @@ Out1 == [ip |-> "ip1", port |-> 50010]
 
 D(c, o) == [cls |-> c, ovf |-> o]
 Dgrams == {D(c, FALSE) : c \in {"reg", "dmr", "rdac", "ping", "ack", "unk", "garbage"}}
-          \cup {D(c, TRUE) : c \in {"reg", "dmr", "rdac"}}
+          \cup {D(c, TRUE) : c \in {"reg", "dmr", "rdac", "ping"}}
 
 NoD == D("garbage", FALSE)
 Init == recs = <<>> /\ mon = {} /\ why = "ok"
